@@ -127,7 +127,15 @@ impl Plan {
             p.eintr.dedup();
         }
         if rng.pct(30) {
-            p.bufreader_cap = if rng.pct(85) { rng.range(1, 64) } else { 8192 };
+            p.bufreader_cap = match rng.below(20) {
+                0..=13 => rng.range(1, 64),
+                14 | 15 => rng.range(65, 600),
+                // capacities around the input length: the last fill ends exactly at / just before / just after EOF
+                16 => len.max(2) - 1,
+                17 => len.max(1),
+                18 => len + 1,
+                _ => 8192,
+            };
         }
         p
     }
